@@ -78,7 +78,135 @@ func calleeKey(cc *ssa.CallCommon) string {
 	return shortName(f)
 }
 
-// closerFields: receiver fields whose Close() is invoked (directly) inside a module Close method.
+// closedParams: the parameters of module function h that h closes whatever happens: Close() is invoked on the parameter in a
+// block that dominates every return, or – for a slice parameter – on the element of a range loop over the whole slice that can
+// only be left through its header (every element is closed, none skipped by an early exit).
+func closedParams(h *ssa.Function) map[int]bool {
+	out := map[int]bool{}
+	if h == nil || !core.InModule(h) || len(h.Blocks) == 0 {
+		return out
+	}
+	var rets []*ssa.BasicBlock
+	for _, b := range h.Blocks {
+		if _, ok := b.Instrs[len(b.Instrs)-1].(*ssa.Return); ok && b.Comment != "recover" {
+			rets = append(rets, b)
+		}
+	}
+	for _, b := range h.Blocks {
+		for _, in := range b.Instrs {
+			ci, ok := in.(ssa.CallInstruction)
+			if !ok {
+				continue
+			}
+			cc := ci.Common()
+			var recv ssa.Value
+			if cc.IsInvoke() && cc.Method.Name() == "Close" {
+				recv = cc.Value
+			} else if sc := cc.StaticCallee(); sc != nil && sc.Name() == "Close" && sc.Signature.Recv() != nil && len(cc.Args) > 0 {
+				recv = cc.Args[0]
+			}
+			if recv == nil {
+				continue
+			}
+			recv = stripIface(recv)
+			for i, pa := range h.Params {
+				if recv == ssa.Value(pa) {
+					all := true
+					for _, r := range rets {
+						if !b.Dominates(r) {
+							all = false
+						}
+					}
+					if _, isDefer := in.(*ssa.Defer); isDefer && b == h.Blocks[0] {
+						all = true
+					}
+					if all {
+						out[i] = true
+					}
+				}
+				// element of a range loop over the slice parameter
+				if ld, ok := recv.(*ssa.UnOp); ok {
+					if ia, ok := ld.X.(*ssa.IndexAddr); ok && ia.X == ssa.Value(pa) {
+						loop := innermostLoop(h, b)
+						if loop == nil {
+							continue
+						}
+						clean := true
+						var header *ssa.BasicBlock
+						for lb := range loop {
+							for _, pr := range lb.Preds {
+								if !loop[pr] {
+									header = lb
+								}
+							}
+						}
+						for lb := range loop {
+							for _, sx := range lb.Succs {
+								if !loop[sx] && lb != header {
+									clean = false
+								}
+							}
+						}
+						// the close is on every iteration: its block dominates the latch (the predecessor of the header inside the loop)
+						if header != nil {
+							for _, pr := range header.Preds {
+								if loop[pr] && !b.Dominates(pr) {
+									clean = false
+								}
+							}
+						}
+						if clean && header != nil {
+							out[i] = true
+						}
+					}
+				}
+			}
+		}
+	}
+	return out
+}
+
+// closeTargets: the values a call instruction closes – the receiver of a Close(), or what is handed to a module helper in a
+// parameter the helper always closes (for a variadic helper: every element of the argument list).
+func closeTargets(ci ssa.CallInstruction) []ssa.Value {
+	cc := ci.Common()
+	if cc.IsInvoke() && cc.Method.Name() == "Close" {
+		return []ssa.Value{cc.Value}
+	}
+	sc := cc.StaticCallee()
+	if sc == nil {
+		return nil
+	}
+	if sc.Name() == "Close" && len(cc.Args) > 0 {
+		return []ssa.Value{cc.Args[0]}
+	}
+	var out []ssa.Value
+	for i := range closedParams(sc) {
+		if i >= len(cc.Args) {
+			continue
+		}
+		a := cc.Args[i]
+		if sl, ok := a.(*ssa.Slice); ok {
+			if arr, ok := sl.X.(*ssa.Alloc); ok {
+				for _, r := range *arr.Referrers() {
+					if ia, ok := r.(*ssa.IndexAddr); ok {
+						for _, r2 := range *ia.Referrers() {
+							if st, ok := r2.(*ssa.Store); ok && st.Addr == ssa.Value(ia) {
+								out = append(out, stripIface(st.Val))
+							}
+						}
+					}
+				}
+				continue
+			}
+		}
+		out = append(out, stripIface(a))
+	}
+	return out
+}
+
+// closerFields: receiver fields whose Close() is invoked (directly, or through a helper that always closes what it is given)
+// inside a module Close method.
 func closerFields(p *core.Prog, f *ssa.Function) []string {
 	var out []string
 	if f == nil || len(f.Params) == 0 {
@@ -90,22 +218,13 @@ func closerFields(p *core.Prog, f *ssa.Function) []string {
 			if !ok {
 				continue
 			}
-			cc := ci.Common()
-			name := ""
-			var recv ssa.Value
-			if cc.IsInvoke() {
-				name, recv = cc.Method.Name(), cc.Value
-			} else if sc := cc.StaticCallee(); sc != nil && sc.Signature.Recv() != nil && len(cc.Args) > 0 {
-				name, recv = sc.Name(), cc.Args[0]
-			}
-			if name != "Close" {
-				continue
-			}
+			for _, recv := range closeTargets(ci) {
 			if ld, ok := recv.(*ssa.UnOp); ok {
 				if fa, ok := ld.X.(*ssa.FieldAddr); ok && fa.X == ssa.Value(f.Params[0]) {
 					st := fa.X.Type().Underlying().(*types.Pointer).Elem().Underlying().(*types.Struct)
 					out = append(out, st.Field(fa.Field).Name())
 				}
+			}
 			}
 		}
 	}
@@ -391,13 +510,8 @@ func typestate(c *Ctx, f *ssa.Function) int {
 				// use after close: any operand whose term mentions a closed resource
 				if ci, ok := in.(ssa.CallInstruction); ok {
 					cc := ci.Common()
-					isClose := false
-					if cc.IsInvoke() && cc.Method.Name() == "Close" {
-						isClose = true
-					}
-					if sc := cc.StaticCallee(); sc != nil && sc.Name() == "Close" {
-						isClose = true
-					}
+					targets := closeTargets(ci)
+					isClose := len(targets) > 0
 					_, isDefer := in.(*ssa.Defer)
 					var operands []ssa.Value
 					if cc.IsInvoke() {
@@ -417,13 +531,7 @@ func typestate(c *Ctx, f *ssa.Function) int {
 						}
 					}
 					if isClose {
-						var target ssa.Value
-						if cc.IsInvoke() {
-							target = cc.Value
-						} else if len(cc.Args) > 0 {
-							target = cc.Args[0]
-						}
-						if target != nil {
+						for _, target := range targets {
 							closeKey(target, isDefer, in)
 						}
 						continue
